@@ -15,7 +15,21 @@ FS = "func_adl/ast/function_simplifier.py"
 
 UT = "func_adl/util_types.py"
 
+EDS = "func_adl/event_dataset.py"
+
 MUTANTS = {
+    "C12": [
+        {"name": "executor-walks-last-arg", "edits": [(OS_, "            node = node.args[0]  # type: ignore", "            node = node.args[-1] if isinstance(node.args[-1], ast.Call) else node.args[0]  # type: ignore")]},
+        {"name": "uncleaned-ast", "edits": [(OS_, "        return await exe(remove_empty_metadata(self._q_ast), title)", "        return await exe(self._q_ast, title)")]},
+        {"name": "title-dropped-when-falsy", "edits": [(OS_, "        return await exe(remove_empty_metadata(self._q_ast), title)", "        return await exe(remove_empty_metadata(self._q_ast), title if title and title.isidentifier() else None)")]},
+        {"name": "executor-cached-on-class", "edits": [(OS_, "        # Extract the executor from this reference.\n        return getattr(node, executor_attr_name)", "        # Extract the executor from this reference.\n        if getattr(ObjectStream, '_last_exe', None) is None:\n            ObjectStream._last_exe = getattr(node, executor_attr_name)\n        return ObjectStream._last_exe")]},
+        {"name": "find-first-of-several", "edits": [(EDS, "            if self.ds is not None:\n                raise Exception(\"AST Query has more than one EventDataset in it!\")", "            if self.ds is not None:\n                return node")]},
+        {"name": "removes-all-metadata", "edits": [(MD, "                    if isinstance(d, dict) and len(d) == 0:", "                    if isinstance(d, dict) and len(d) <= 1 and 'cb' not in d:")]},
+        {"name": "result-wrapped", "edits": [(OS_, "        return await exe(remove_empty_metadata(self._q_ast), title)", "        r = await exe(remove_empty_metadata(self._q_ast), title)\n        return r if not isinstance(r, (list, tuple)) else list(r)")], "equivalent": "sentinels are opaque objects"},
+        {"name": "executed-twice-on-terminal", "edits": [(OS_, "        return await exe(remove_empty_metadata(self._q_ast), title)", "        a = remove_empty_metadata(self._q_ast)\n        if isinstance(a, ast.Call) and getattr(a.func, 'id', '').startswith('ResultP'):\n            await exe(a, title)\n        return await exe(a, title)")]},
+        {"name": "exception-rewrapped", "edits": [(OS_, "        return await exe(remove_empty_metadata(self._q_ast), title)", "        try:\n            return await exe(remove_empty_metadata(self._q_ast), title)\n        except Exception as e:\n            raise type(e)(*e.args) from e")]},
+        {"name": "executor-during-build", "edits": [(OS_, "        return ObjectStream[ReturnedDataPlaceHolder](\n            function_call(\"ResultParquet\", [self._q_ast, as_ast(columns), as_ast(filename)])\n        )", "        r = ObjectStream[ReturnedDataPlaceHolder](\n            function_call(\"ResultParquet\", [self._q_ast, as_ast(columns), as_ast(filename)])\n        )\n        c = r._get_executor()(r._q_ast, None)\n        c.close()\n        return r")], "equivalent": "creating and closing a coroutine never runs the executor body"},
+    ],
     "C11": [
         {"name": "clone-mutates-self", "edits": [(OS_, "        clone = copy.copy(self)\n        clone._q_ast = new_ast", "        clone = copy.copy(self)\n        if isinstance(new_ast, ast.Call) and getattr(new_ast.func, 'id', '') == 'MetaData':\n            self._q_ast = new_ast\n        clone._q_ast = new_ast")]},
         {"name": "qmetadata-no-copy", "edits": [(OS_, "new_self = self.clone_with_new_ast(copy.copy(base_ast), self.item_type)", "new_self = self.clone_with_new_ast(base_ast, self.item_type)")]},
